@@ -80,6 +80,25 @@ theorem finished_stays_finished (o : Order) (r : Report) (hf : o.status ∈ fini
   simp only [finished, List.mem_cons, List.not_mem_nil, or_false] at hf
   rcases hf with h' | h' | h' | h' <;> simp [isFinished, hst, h']
 
+/-- OBSERVATION outside the property's quantifier (application hooks that raise): the builders are not
+exception safe – after `set_instrument` raised inside `cancel_req()` of a NEW order nothing was sent,
+yet ClOrdID, OrigClOrdID and counter have advanced, `can_cancel()` is still true and the next
+`cancel_req()` fails its assertion.  (`cancelReqH … .raises` mirrors the code as it is; the
+correspondence exercises it.  All theorems here assume hooks that return normally.) -/
+example :
+    let o : Order := { clordId := [111, 45, 45, 49], price := 80, qty := 40, clordCnt := 1, status := "0" }
+    (cancelReqH o .raises).2 = .raised .hook ∧ (cancelReqH o .raises).1.origClordId = some [111, 45, 45, 49] ∧
+    canCancel (cancelReqH o .raises).1 = .ok true ∧
+    (cancelReq (cancelReqH o .raises).1).2 = .raised .assertion := by decide +kernel
+
+/-- with well-behaved hooks the hook-aware builders are the plain builders -/
+theorem builders_hook_ok (o : Order) (p q : Option Int) :
+    newReqH o .ok = newReq o ∧ cancelReqH o .ok = cancelReq o ∧ replaceReqH o p q .ok = replaceReq o p q := by
+  refine ⟨?_, ?_, ?_⟩
+  · unfold newReqH newReq; split <;> rfl
+  · unfold cancelReqH; split <;> first | rfl | (rename_i h; cases h)
+  · unfold replaceReqH; split <;> first | rfl | (rename_i h; cases h)
+
 /-- the gates never raise and are decided by the status alone -/
 theorem gates_total (o : Order) :
     canCancel o = .ok (decide (o.status ∈ AsyncFix.Props.C16.live)) ∧
